@@ -167,17 +167,11 @@ func c08SameRepr(a, b reflect.Type) bool {
 	if a == b {
 		return true
 	}
-	// two interface types are the same in memory only when they have the same methods: the word next to the data pointer is the
-	// method table of the declared type, and a view reads it as the table of its own
-	if a.Kind() != reflect.Interface || b.Kind() != reflect.Interface || a.NumMethod() != b.NumMethod() || a.NumMethod() == 0 {
-		return false
-	}
-	for i := 0; i < a.NumMethod(); i++ {
-		if a.Method(i).Name != b.Method(i).Name || a.Method(i).Type != b.Method(i).Type {
-			return false
-		}
-	}
-	return true
+	// two interface types are the same in memory only when they are the same type: the word next to the data pointer is the method
+	// table of the (declared interface type, dynamic type) pair.  With another interface type at the same place - even one with the
+	// very same methods - a value written through the view carries the other type's table, and reading the original then fails every
+	// direct type assertion (original.Actor.(IRI) is false for an IRI) and every == between items
+	return false
 }
 
 // shared field correspondence: same name and type, plus Items <-> OrderedItems
